@@ -10,6 +10,9 @@
 //   coll asyncval <seed> <rounds> [nfn] -> the idiom `ygm::sum(counter, world)`: chains of asyncs whose handlers UPDATE a per-rank variable
 //                                     are issued, then a free function is called ON THAT VARIABLE without a barrier; prints
 //                                     `v <round> <fn> <var at call> <flag at call> <result> <var after return> <expected final var>`
+//   coll sweep <kind> <sizes>      -> size-boundary sweep of the serialised collectives: one run loops over all sizes (`a-b,c,d-e`), no YGM
+//                                     traffic in between; kinds all_reduce_str | all_reduce_vec64 | all_reduce_vecpair | mpi_bcast_str | bcast_str |
+//                                     sendrecv_str; every rank prints `s <size> <root> <crc32 of the printed result token> <token length>`
 //   coll prims                     -> brackets one call of every collective with `enter <c>` / `exit <c>` events on the wire log
 // The blocking members (comm::all_reduce*, ygm::bcast) are only called right after a barrier() (see DESIGN.md D7).
 #include "hcommon.hpp"
@@ -325,6 +328,48 @@ static void asyncval(ygm::comm& w, uint64_t seed, int rounds, int nfn) {
   w.barrier();
 }
 
+// ------------------------------------------------------------------ size-boundary sweep of the serialised transfers
+static uint32_t crc32_of(const std::string& s) {
+  static uint32_t tab[256]; static bool init = false;
+  if (!init) { for (uint32_t i = 0; i < 256; ++i) { uint32_t c = i; for (int k = 0; k < 8; ++k) c = (c & 1) ? 0xEDB88320u ^ (c >> 1) : c >> 1; tab[i] = c; } init = true; }
+  uint32_t c = 0xFFFFFFFFu; for (unsigned char ch : s) c = tab[(c ^ ch) & 0xFF] ^ (c >> 8); return c ^ 0xFFFFFFFFu;
+}
+// input of rank r for size parameter L: period-26 pattern depending on (r, L); the check regenerates it
+static std::string sweep_str(int r, long L) { std::string s((size_t)L, 'a'); long off = (long)r * 7 + L; for (long j = 0; j < L; ++j) s[(size_t)j] = (char)('a' + (j * 3 + off) % 26); return s; }
+static std::vector<uint64_t> sweep_vec64(int r, long k) { std::vector<uint64_t> v((size_t)k); for (long j = 0; j < k; ++j) v[(size_t)j] = (uint64_t)(r * 1000003L + j * 17 + k); return v; }
+static std::string show64(const std::vector<uint64_t>& v) { std::string o = "_"; for (size_t i = 0; i < v.size(); ++i) { if (i) o += ","; o += std::to_string((unsigned long long)v[i]); } return o; }
+static std::vector<std::pair<long, long>> parse_sizes(const char* spec) {
+  std::vector<std::pair<long, long>> v; std::stringstream ss(spec); std::string t;
+  while (std::getline(ss, t, ',')) { if (t.empty()) continue; size_t d = t.find('-'); if (d == std::string::npos) v.emplace_back(atol(t.c_str()), atol(t.c_str())); else v.emplace_back(atol(t.substr(0, d).c_str()), atol(t.substr(d + 1).c_str())); }
+  return v;
+}
+static void sweep_line(long L, int root, const std::string& tok) {
+  hc::out("s " + std::to_string(L) + " " + std::to_string(root) + " " + std::to_string(crc32_of(tok)) + " " + std::to_string(tok.size()));
+}
+static void sweep(ygm::comm& w, const std::string& kind, const char* spec) {
+  w.barrier();      // the only YGM traffic; everything below is blocking MPI on m_comm_other
+  std::vector<int> roots = {0}; if (g_size > 1) roots.push_back(g_size - 1); if (g_size > 2) roots.push_back(g_size / 2);
+  for (auto range : parse_sizes(spec)) for (long L = range.first; L <= range.second; ++L) {
+    if (kind == "all_reduce_str") {
+      sweep_line(L, -1, show(w.all_reduce(sweep_str(g_rank, L), [](const std::string& a, const std::string& b) { return a + b; })));
+    } else if (kind == "all_reduce_vec64") {
+      sweep_line(L, -1, show64(w.all_reduce(sweep_vec64(g_rank, L), [](const std::vector<uint64_t>& a, const std::vector<uint64_t>& b) { auto r = a; r.insert(r.end(), b.begin(), b.end()); return r; })));
+    } else if (kind == "all_reduce_vecpair") {
+      vec_t m; m.emplace_back(sweep_str(g_rank, L), g_rank - 2);
+      sweep_line(L, -1, show(w.all_reduce(m, [](const vec_t& a, const vec_t& b) { vec_t r = a; r.insert(r.end(), b.begin(), b.end()); return r; })));
+    } else if (kind == "mpi_bcast_str") {
+      for (int root : roots) sweep_line(L, root, show(w.mpi_bcast(sweep_str(g_rank, L), root, w.get_mpi_comm())));
+    } else if (kind == "bcast_str") {
+      for (int root : roots) { std::string b = sweep_str(g_rank, L); ygm::bcast(b, root, w); sweep_line(L, root, show(b)); }
+    } else if (kind == "sendrecv_str") {   // (2k -> 2k+1) and back, as in `vals`
+      std::string m = sweep_str(g_rank, L), got = m;
+      if (g_rank % 2 == 0 && g_rank + 1 < g_size) { w.mpi_send(m, g_rank + 1, 3, w.get_mpi_comm()); got = w.mpi_recv<std::string>(g_rank + 1, 4, w.get_mpi_comm()); }
+      else if (g_rank % 2 == 1) { got = w.mpi_recv<std::string>(g_rank - 1, 3, w.get_mpi_comm()); w.mpi_send(got + m, g_rank - 1, 4, w.get_mpi_comm()); }
+      sweep_line(L, -1, show(got));
+    }
+  }
+}
+
 // ------------------------------------------------------------------ program structure on the wire log
 static void prims(ygm::comm& w) {
   long v = g_rank + 1; bool b = true; std::string s = "r" + std::to_string(g_rank);
@@ -373,6 +418,7 @@ extern "C" int sim_main(int argc, char** argv) {
   } else if (mode == "vals") vals(world, seed, rounds);
   else if (mode == "async") asyncs(world, seed, rounds, argc > 4 ? atoi(argv[4]) : 7);
   else if (mode == "asyncval") asyncval(world, seed, rounds, argc > 4 ? atoi(argv[4]) : 7);
+  else if (mode == "sweep") sweep(world, argc > 2 ? argv[2] : "all_reduce_str", argc > 3 ? argv[3] : "0-64");
   else if (mode == "prims") prims(world);
   hc::out("done");
   return 0;
